@@ -311,6 +311,70 @@ def run_mesher_wrapper(mutate=None):
     return dict(obls=obls, paths=n, sources=[L0.info()], consistent=True)
 
 
+DV_ = "tdgl.device.device"
+
+
+def run_device_translate(mutate=None):
+    """Device.translate with a mesh: the device gets a NEW mesh whose sites are the old sites moved by (dx, dy) (in length units) on the same
+    triangles; the old Mesh object - which copies of the device and Solutions share - is not modified (frame condition)."""
+    mut = [(o, n) for (m, o, n) in (mutate or []) if m == DV_]
+    built = []
+
+    class MeshStub:
+        @staticmethod
+        def from_triangulation(points, triangles, create_submesh=True):
+            built.append((points, triangles))
+            return type("NewMesh", (), {"sites": points, "elements": triangles})()
+    unit1 = type("Unit1", (), {"__rmul__": lambda self_, v: type("Q", (), {"magnitude": v})()})
+    rebind = {"np": NPG, "ureg": lambda u: unit1(), "Mesh": MeshStub}
+    rebind.update(BUILTINS)
+    L = instrument.load(DV_, rebind=rebind, mutate=mut, vc=vcm.VC())
+    Device = L["Device"]
+
+    def body():
+        del built[:]
+        R = z3.Real
+        n = SI(z3.Int("n_sites"))
+        assume(n >= 1)
+        xi, dx, dy = SR(R("xi")), SR(R("dx")), SR(R("dy"))
+        assume(xi > 0)
+        moved = []
+
+        class Poly:
+            def __init__(self, name):
+                self.name = name
+
+            def translate(self, dx_=0, dy_=0, inplace=False):
+                moved.append((self.name, dx_, dy_, inplace))
+                return self
+        d = Device.__new__(Device)
+        d.name, d._length_units, d.probe_points = "d", "um", None
+        d.layer = type("Layer", (), {})()
+        d.layer.coherence_length, d.layer.z0 = xi, SR(R("z0"))
+        d.film, d.holes, d.terminals = Poly("film"), [Poly("h")], (Poly("src"), Poly("drn"))
+        old_sites = SymArray.input("sites", (n, SI(2)))
+        pristine = old_sites.copy()
+        old_mesh = type("OldMesh", (), {})()
+        old_mesh.sites, old_mesh.elements = old_sites, "TRIANGLES"
+        d.mesh = old_mesh
+        w0 = len(sym.ctx().ghost.get("writes", []))
+        r = d.translate(dx, dy, inplace=True)
+        k, c_ = SI(FreshInt("k")), SI(FreshInt("c"))
+        assume(k >= 0, k < n, c_ >= 0, c_ < 2)
+        writes = [w for w in sym.ctx().ghost.get("writes", [])[w0:] if w[0] is old_sites]
+        check_same("C07.device_translate.the_mesh_shared_with_other_holders_is_not_modified", [(old_mesh.sites, pristine)], also=(not writes and old_mesh.sites is old_sites))
+        check("C07.device_translate.every_polygon_moved_in_place_by_the_shift",
+              z3.BoolVal(sorted(m_[0] for m_ in moved) == ["drn", "film", "h", "src"] and all(m_[1] is dx and m_[2] is dy and m_[3] is True for m_ in moved)))
+        ok = len(built) == 1 and isinstance(built[0][0], SymArray) and d.mesh is not old_mesh
+        shift = sym.ite(c_.e == 0, dx, dy)
+        check("C07.device_translate.new_mesh_has_the_old_sites_moved_by_the_shift_on_the_same_triangles",
+              z3.And(sym.eq(built[0][0].at(k, c_) * xi, pristine.at(k, c_) * xi + shift), z3.BoolVal(built[0][1] == "TRIANGLES")) if ok else z3.BoolVal(False),
+              fallback_extra=sym.congruence_axioms)
+        check("C07.device_translate.inplace_returns_the_device", z3.BoolVal(r is d))
+    obls, n_ = explore(body)
+    return dict(obls=obls, paths=n_, sources=[L.info()], consistent=sym.consistent())
+
+
 def run_native_quick(mutate=None):
     """BOUNDED stand-in executed also in the quick tier (reduced family): postconditions of the real mesher"""
     def body():
@@ -325,6 +389,7 @@ def units():
             Unit("EdgeMesh.from_mesh", E_ + ":EdgeMesh.from_mesh", run_edge_geometry, props=["C07"], timeout=300),
             Unit("dual length rule lemmas", "lemma over the circumcentre contract", run_dual_lemma, props=["C07"], timeout=120),
             Unit("generate_mesh[wrapper around Triangle]", G_ + ":generate_mesh", run_mesher_wrapper, props=["C07"], timeout=300),
+            Unit("Device.translate[mesh]", DV_ + ":Device.translate", run_device_translate, props=["C07"], timeout=300),
             Unit("make_mesh postconditions [bounded]", "tdgl.device.device:Device.make_mesh (Triangle, qhull)", run_native_quick, props=["C07"], timeout=600, kind="bounded")]
 
 
@@ -348,6 +413,22 @@ def native(seed=0, reduced=False):
         fam.append(dict(film=box(3, 3, center=centre), holes=[], terms=True, centre=centre, mel=0.5, smooth=5))
     # the mesher's no-refinement path (max_edge_length <= 0): coarse mesh of an off-centre device
     fam.append(dict(film=box(4, 2, center=(7.5, -3.0), points=41), holes=[circle(0.4, center=(7.5, -3.0), points=21)], terms=False, centre=(7.5, -3.0), mel=0, smooth=0))
+    # a device translated in place gets a new mesh; a copy made before (copies and Solutions share the Mesh object) keeps a mesh that still
+    # fits its own polygons
+    try:
+        d0 = tdgl.Device("d", layer=layer, film=tdgl.Polygon("film", points=box(4, 2)), holes=[tdgl.Polygon("h", points=circle(0.4))], length_units="um")
+        d0.make_mesh(max_edge_length=0.6, smooth=0)
+        snap = d0.copy()
+        sites_before = snap.mesh.sites.copy()
+        d0.translate(dx=3.0, dy=-1.5, inplace=True)
+        n += 1
+        if not np.array_equal(snap.mesh.sites, sites_before):
+            bad.append(dict(what="translating a device in place moved the mesh sites of a copy made before (shared Mesh object modified)",
+                            max_site_displacement=float(np.abs(snap.mesh.sites - sites_before).max())))
+        if not np.allclose(d0.mesh.sites * d0.coherence_length.magnitude, sites_before * d0.coherence_length.magnitude + np.array([[3.0, -1.5]]), atol=1e-12):
+            bad.append(dict(what="the translated device's mesh is not the old mesh moved by the shift"))
+    except Exception as e:  # noqa
+        bad.append(dict(what=f"Device.translate(inplace=True) with a mesh raised {type(e).__name__}: {str(e)[:100]}"))
     if not reduced:
         for k in range(10):
             centre = tuple(rng.uniform(-20, 20, 2))
@@ -471,6 +552,11 @@ def replay(unit, obl):
 
 
 MUTANTS = [
+    dict(name="translate shifts the live site array of the shared mesh", units=["Device.translate[mesh]"], edits=[
+        (DV_, "            points = device.points\n            points += np.array([[dx, dy]])\n            device._create_dimensionless_mesh(points, device.triangles)",
+         "            sites = device.mesh.sites\n            sites += np.array([[dx, dy]]) / device.coherence_length.magnitude\n            device.mesh = Mesh.from_triangulation(sites, device.triangles)")]),
+    dict(name="translate forgets the coherence length", units=["Device.translate[mesh]"], edits=[
+        (DV_, "            points = device.points\n            points += np.array([[dx, dy]])", "            points = device.mesh.sites * 1.0\n            points += np.array([[dx, dy]])")]),
     dict(name="early return of generate_mesh loses the shift back", units=["generate_mesh[wrapper around Triangle]"], edits=[
         (G_, "    points = np.array(mesh.points) + r0\n    triangles = np.array(mesh.elements)\n    if min_points is None", "    points = np.array(mesh.points)\n    triangles = np.array(mesh.elements)\n    if min_points is None"),
         (G_, "        points = np.array(mesh.points) + r0\n", "        points = np.array(mesh.points)\n"),
